@@ -1,7 +1,7 @@
 (* Proofs about Model/FluxExpr.v: a [lin] expression is (its value at unit step) * step, for every value of
    every variable; hence the increment of a table row is additive over any splitting of the step. *)
 From Coq Require Import QArith List Bool String Lia.
-From PyxelV Require Import Model.Flux Model.FluxExpr.
+From PyxelV Require Import Model.Flux Proofs.Flux Model.FluxExpr.
 Import ListNotations.
 Open Scope Q_scope.
 
@@ -105,3 +105,39 @@ Qed.
 
 Theorem bad_rows_nil : forall t, bad_rows t = [] <-> table_ok t = true.
 Proof. intros t. apply bad_rows_from_nil. Qed.
+
+(* ------------------------------------------------------------------ the Readout guards *)
+
+Lemma sguard_eqb_eq : forall a b, sguard_eqb a b = true -> a = b.
+Proof. destruct a, b; simpl; intros; try discriminate; reflexivity. Qed.
+
+Lemma existsb_mem : forall g gs, existsb (sguard_eqb g) gs = true -> In g gs.
+Proof.
+  intros g gs H. apply existsb_exists in H. destruct H as [x [Hin Hx]].
+  apply sguard_eqb_eq in Hx. subst. exact Hin.
+Qed.
+
+Lemma forallb_all_three : forall (f : sguard -> bool) gs,
+  In GFirstZero gs -> In GStartGeFirst gs -> In GNotIncreasing gs ->
+  forallb f gs = f GFirstZero && f GStartGeFirst && f GNotIncreasing.
+Proof.
+  intros f gs H1 H2 H3.
+  destruct (forallb f gs) eqn:E.
+  - rewrite forallb_forall in E. rewrite (E _ H1), (E _ H2), (E _ H3). reflexivity.
+  - destruct (f GFirstZero) eqn:E1, (f GStartGeFirst) eqn:E2, (f GNotIncreasing) eqn:E3; simpl; try reflexivity.
+    exfalso. assert (forallb f gs = true) as C; [|congruence].
+    apply forallb_forall. intros [] _; assumption.
+Qed.
+
+Theorem accepted_is_valid_schedule : forall er gs, guards_complete er gs = true ->
+  forall start ts, accepted er gs start ts = valid_schedule start ts.
+Proof.
+  intros er gs H start ts. unfold guards_complete in H.
+  repeat (apply andb_prop in H; destruct H as [H ?]).
+  subst er || (destruct er; [|discriminate]).
+  destruct ts as [|t0 r]; [reflexivity|].
+  unfold accepted. rewrite (forallb_all_three _ gs) by (apply existsb_mem; assumption).
+  unfold valid_schedule. cbn [refuses increasing_from]. unfold Qltb.
+  rewrite negb_involutive.
+  destruct (Qeq_bool t0 0), (Qle_bool t0 start), (increasing_from t0 r); reflexivity.
+Qed.
